@@ -138,7 +138,7 @@ def window(rng: np.random.Generator, tau0: float) -> np.ndarray:
     return np.sort(np.concatenate([[0.0, end], rng.uniform(0.0, end, n - 2)]))
 
 
-BOUND_KINDS = ("default", "finite-in", "finite-out", "lower-in", "lower-out", "mixed")
+BOUND_KINDS = ("default", "finite-in", "finite-out", "lower-in", "lower-out", "mixed", "tau-above")
 
 
 def random_conc(rng: np.random.Generator, cname: str, kind: str, small_m: bool = False) -> Conc:
@@ -164,6 +164,12 @@ def random_conc(rng: np.random.Generator, cname: str, kind: str, small_m: bool =
     if kind == "mixed":
         return Conc(cname, m0, tau0, t, "finite", "lower", (m0 * 10 ** -u(0.1, 2), m0 * 10 ** u(0.1, 2)),
                     (tau0 * 10 ** -u(0.1, 2), math.inf))
+    if kind == "tau-above":
+        # the lower tau limit lies above the data-driven initial guess (5 x the last time): half-infinite or finite
+        lo = tau0 * 10 ** u(1.3, 2)
+        half = bool(rng.random() < 0.5)
+        return Conc(cname, m0, tau0, t, "lower", "lower" if half else "finite", (m0 * 10 ** -u(0.1, 2), math.inf),
+                    (lo, math.inf) if half else (lo, lo * 10 ** u(0.5, 1.5)))
     raise KeyError(kind)
 
 
